@@ -10,6 +10,8 @@
 (* positions are logged in 1/1024 of a unit, P as p2 = 2P, and             *)
 (*        px1024 = du1024 * p2 / (2 * upem)   up to rounding,              *)
 (* computed in stages so that no intermediate exceeds 2^31.                *)
+(* Every fourth pair is followed by a record of the same relation after    *)
+(* gr_slot_linebreak_before + gr_seg_justify of the second line (j = 1).   *)
 (***************************************************************************)
 EXTENDS Integers, Sequences, FiniteSets, TLC, Json, IOUtils
 
@@ -26,7 +28,11 @@ Scaled(du, p2, d) ==
 \* tolerance in 1/1024 px: logging quantisation of both sides plus single-precision accumulation over k operations
 Tol(x, k, p2, d) == 8 + ((p2 + d - 1) \div d) + ((Abs(x) \div 1024) * (k + 8)) \div 1024
 
-Close(px, du, k, r) == Abs(px - Scaled(du, r.p2, 2 * r.upem)) <= Tol(px, k, r.p2, 2 * r.upem)
+\* records made after cutting the segment in two and justifying the second line (j = 1): the space handed out is rounded
+\* to whole design units per slot (int(pref / step) * step in Segment::justify), so the two runs may differ by a few
+\* design units at any one slot while the total is kept: 8 design units more
+TolJ(r) == IF r.j = 1 THEN Scaled(8 * 1024, r.p2, 2 * r.upem) + 8 ELSE 0
+Close(px, du, k, r) == Abs(px - Scaled(du, r.p2, 2 * r.upem)) <= Tol(px, k, r.p2, 2 * r.upem) + TolJ(r)
 
 VARIABLE k
 Init == k = 1
